@@ -420,6 +420,9 @@ const c8IDBase = 7_000_000
 const c8OwnBase = 8_000_000
 const c8APIBase = 9_000_000
 const c8DeepBase = 9_500_000
+const c8IntBase = 9_700_000
+const c8SizeBase = 9_800_000
+const c8TxtBase = 9_900_000
 
 type c8Run struct {
 	out   *vOut
@@ -1526,6 +1529,49 @@ func (h *c8Run) ownBlock(replay, base, seqReps, concReps, gor, iters int) {
 }
 
 // TestVerifC08OwnRace: the concurrent ownership block alone, more goroutine rounds; run with -race in the thorough tier.
+// badBlock: for the four signals and the four request wrappers × classes × 2 values, a conforming document in which exactly ONE
+// site of the class is replaced (c8WriteBadJSON); `op jdec` — the model predicts error vs value exactly.
+func (h *c8Run) badBlock(replay, base int, classes []string, area string) {
+	idx := base
+	roots := []string{"logs", "metrics", "traces", "profiles", "logsreq", "metricsreq", "tracesreq", "profilesreq"}
+	if area == "intspell" { // the export responses read their rejected_* count through json.ReadInt64 too (appended: indices of the others stay)
+		roots = append(roots, "logsresp", "metricsresp", "tracesresp", "profilesresp")
+	}
+	for _, rootName := range roots {
+		r := h.roots[rootName]
+		for _, class := range classes {
+			for rep := 0; rep < 2; rep++ {
+				c := idx
+				idx++
+				if replay >= 0 && replay != c {
+					continue
+				}
+				rnd := vRand(c)
+				var txt, j, hit string
+				var pf map[string]uint64
+				ok := false
+				for try := 0; try < 12 && !ok; try++ {
+					g := c8NewGen(rnd, false)
+					g.pDefault = 0.1
+					g.budget += 20
+					x := g.root(r.m)
+					txt, j, pf, hit, ok = c8WriteBadJSON(x, class, rnd)
+				}
+				h.begin(c, area, r.name)
+				h.stat(area + "." + class)
+				if !ok {
+					h.stat(area + ".nosite")
+					h.end(false)
+					continue
+				}
+				h.stat(area + ".site." + hit)
+				h.opJdec(r, []byte(txt), j, pf)
+				h.end(true)
+			}
+		}
+	}
+}
+
 func TestVerifC08OwnRace(t *testing.T) {
 	out := vOpen(t)
 	defer out.Close()
@@ -1599,39 +1645,34 @@ func TestVerifC08Codec(t *testing.T) {
 	// and the request wrappers. The unmarshaler must answer (error or value) — never panic or hang; the model predicts the answer.
 	// Case indices from c8BadBase; always run (also in quick).
 	if replay < 0 || (replay >= c8BadBase && replay < c8IDBase) {
-		idx := c8BadBase
-		for _, rootName := range []string{"logs", "metrics", "traces", "profiles", "logsreq", "metricsreq", "tracesreq", "profilesreq"} {
-			r := h.roots[rootName]
-			for _, class := range c8BadClasses {
-				for rep := 0; rep < 2; rep++ {
-					c := idx
-					idx++
-					if replay >= 0 && replay != c {
-						continue
-					}
-					rnd := vRand(c)
-					var txt, j, hit string
-					var pf map[string]uint64
-					ok := false
-					for try := 0; try < 12 && !ok; try++ {
-						g := c8NewGen(rnd, false)
-						g.pDefault = 0.1
-						g.budget += 20
-						x := g.root(r.m)
-						txt, j, pf, hit, ok = c8WriteBadJSON(x, class, rnd)
-					}
-					h.begin(c, "badjson", r.name)
-					h.stat("badjson." + class)
-					if !ok {
-						h.stat("badjson.nosite")
-						h.end(false)
-						continue
-					}
-					h.stat("badjson.site." + hit)
-					h.opJdec(r, []byte(txt), j, pf)
-					h.end(true)
+		h.badBlock(replay, c8BadBase, c8BadClasses, "badjson")
+	}
+	// integer spellings beyond the canonical text (`+7`, `007`, `-0`, numbers whose overflow jsoniter does not notice, underscore, hex
+	// prefix, exponent, …) at one 64-/32-bit integer site of a conforming document: both branches of json.ReadInt64/… against the
+	// model's `parseNum` (jsoniter digit loop) / `parseInt` (strconv). Case indices from c8IntBase; always run.
+	if replay < 0 || (replay >= c8IntBase && replay < c8SizeBase) {
+		h.badBlock(replay, c8IntBase, c8IntSpellClasses, "intspell")
+	}
+	// length boundaries (128 / 16384: 2- and 3-byte length prefixes) of strings, bytes, packed lists and repeated messages, in a
+	// message of every protogen package reachable from each root (each package has its own encodeVarint<X>/sov<X> copy); full
+	// proto + JSON round trip, size, model differential. Case indices from c8SizeBase; always run (thorough: more lengths).
+	if replay < 0 || (replay >= c8SizeBase && replay < c8TxtBase) {
+		idx := c8SizeBase
+		for _, name := range []string{"logs", "metrics", "traces", "profiles", "logsreq", "metricsreq", "tracesreq", "profilesreq",
+			"logsresp", "metricsresp", "tracesresp", "profilesresp"} {
+			r := h.roots[name]
+			c8SizeCases(r.m, vThorough(), func(key string, x any) {
+				c := idx
+				idx++
+				if replay >= 0 && replay != c {
+					return
 				}
-			}
+				h.begin(c, "value", r.name)
+				h.stat("sizeboundary")
+				h.stat("sizeboundary." + key[:strings.IndexByte(key, '.')])
+				h.runValue(r, x)
+				h.end(true)
+			})
 		}
 	}
 	// boundary shapes of the fixed-size ids (values with a zero test): every id of the payload one-hot at each byte position,
@@ -1681,8 +1722,14 @@ func TestVerifC08Codec(t *testing.T) {
 	// totality under DEEP nesting (10^3 … 10^5 levels): nested ArrayValue / KvlistValue, nested unknown groups, nested unknown JSON —
 	// the Go-side recursion of the generated Unmarshal and of jsoniter's Skip, under recover + timeout. The model is not consulted
 	// (`op fuzz`): its theorems are unbounded, the driver's native recursion is not.
-	if replay < 0 || (replay >= c8DeepBase && replay < c8ExhBase) {
+	if replay < 0 || (replay >= c8DeepBase && replay < c8IntBase) {
 		h.deepBlock(replay)
+	}
+	// ids and base64 bytes exactly as the readers take them (hex either case / quoted / zero written out / odd, long, non-hex; base64 with
+	// CR LF anywhere, url-safe alphabet, missing / misplaced padding, trailing bits): the model's idUnmarshalJSON / b64Read (theorems
+	// C08_hexid_roundtrip, C08_base64_roundtrip) predict value vs error exactly. Case indices from c8TxtBase; always run.
+	if replay < 0 || (replay >= c8TxtBase && replay < c8ExhBase) {
+		h.badBlock(replay, c8TxtBase, c8TxtLeafClasses, "txtleaf")
 	}
 	if (vThorough() && replay < 0) || replay >= c8ExhBase {
 		idx := c8ExhBase
